@@ -240,8 +240,8 @@ def path_environ(seed):
     err, pf, pu, args, style = "", [], [], [], 0
     try:
         from werkzeug.datastructures import MultiDict
-        style = rng.choice([0, 0, 0, 1, 2, 3]) if seed % 97 != 0 and seed % 291 != 1 else 0
-        if not any(p["kind"] == "file" for p in parts):
+        style = rng.choice([0, 0, 0, 1, 2, 3, 4]) if seed % 97 != 0 and seed % 291 != 1 else 0
+        if not any(p["kind"] == "file" for p in parts) and style != 4:
             style = 0
         if style == 0:
             b = EnvironBuilder(method="POST", data=_values_multidict(parts), query_string=MultiDict(pairs))
@@ -255,6 +255,15 @@ def path_environ(seed):
                 if p["kind"] == "file":
                     fmd.add_file(p["name"], io.BytesIO(p["data"]), p["fname"], p["ctype"])
             b = EnvironBuilder(method="POST", query_string=MultiDict(pairs))
+            if style == 4:
+                # a builder re-created from an earlier request's environ (which carries that request's body
+                # headers), then given this form: a configuration change between two uses
+                old = {"old": "x" * rng.randint(0, 40)}
+                if len(fmd):
+                    old["oldf"] = (io.BytesIO(b"zz" * rng.randint(0, 30)), "o.bin")  # the earlier request was multipart too
+                b0 = EnvironBuilder(method="POST", data=old, query_string=MultiDict(pairs))
+                b = EnvironBuilder.from_environ(b0.get_environ())
+                b0.close()
             if style == 1:
                 for k, v in fields.items(multi=True):
                     b.form.add(k, v)
@@ -362,9 +371,70 @@ def path_charset(seed):
              "intended": [_enc_part(p, False) for p in _intended_grouped(parts)], "parsed": [_enc_part(p, False) for p in pf]}]
 
 
+def path_relay(seed):
+    """decode -> re-encode under new names -> decode: a relay re-sends the parts it parsed (the events it got from
+    the decoder, headers included) under other field names / file names; what the second parse yields must be
+    the renamed parts (name, filename, content type, bytes)."""
+    from werkzeug.datastructures import Headers
+    from werkzeug.sansio.multipart import Data, Epilogue, Field, File, MultipartDecoder, MultipartEncoder, NeedData, Preamble
+
+    rng = random.Random(seed ^ 0x7E1A)
+    bnd = b"RelayPart" + str(seed % 97).encode()
+    parts = [p for p in _gen_parts(rng, bnd) if p["name"] != ""][:3]
+    err, parsed, intended = "", [], []
+
+    def decode(wire):
+        out, dec = [], MultipartDecoder(bnd)
+        for piece in (wire, None):
+            dec.receive_data(piece)
+            while True:
+                e = dec.next_event()
+                if isinstance(e, (NeedData, Epilogue)):
+                    break
+                if isinstance(e, (File, Field)):
+                    out.append([e, b""])
+                elif isinstance(e, Data):
+                    out[-1][1] += e.data
+        return out
+
+    try:
+        enc = MultipartEncoder(bnd)
+        evs = [Preamble(data=b"")]
+        for p in parts:
+            raw = p["data"].encode() if isinstance(p["data"], str) else p["data"]
+            raw = raw.replace(b"--" + bnd, b"-")
+            p["data"] = raw
+            if p["kind"] == "file":
+                evs += [File(name=p["name"], filename=p["fname"], headers=Headers([("Content-Type", p["ctype"])])), Data(data=raw, more_data=False)]
+            else:
+                evs += [Field(name=p["name"], headers=Headers()), Data(data=raw, more_data=False)]
+        evs.append(Epilogue(data=b""))
+        first = decode(b"".join(enc.send_event(e) for e in evs))
+        enc2, evs2 = MultipartEncoder(bnd), [Preamble(data=b"")]
+        for e, data in first:
+            if isinstance(e, File):
+                nn, nf = e.name + "2", "re-" + e.filename
+                evs2 += [File(name=nn, filename=nf, headers=e.headers), Data(data=data, more_data=False)]
+                intended.append({"kind": "file", "name": nn, "fname": nf, "ctype": e.headers.get("content-type", ""), "data": data})
+            else:
+                nn = e.name + "2"
+                evs2 += [Field(name=nn, headers=e.headers), Data(data=data, more_data=False)]
+                intended.append({"kind": "field", "name": nn, "fname": "", "ctype": "", "data": data})
+        evs2.append(Epilogue(data=b""))
+        for e, data in decode(b"".join(enc2.send_event(e) for e in evs2)):
+            if isinstance(e, File):
+                parsed.append({"kind": "file", "name": e.name, "fname": e.filename, "ctype": e.headers.get("content-type", ""), "data": data})
+            else:
+                parsed.append({"kind": "field", "name": e.name, "fname": "", "ctype": "", "data": data})
+    except Exception as ex:
+        err = type(ex).__name__
+    return [{"op": "rt", "path": "relay", "bnd": list(bnd), "err": err, "intended": [_enc_part(p, True) for p in intended],
+             "parsed": [_enc_part(p, True) for p in parsed]}]
+
+
 def _dispatch(job):
     kind, arg = job
-    return {"sansio": path_sansio, "testenc": path_testenc, "environ": path_environ, "model": path_model, "charset": path_charset}[kind](arg)
+    return {"sansio": path_sansio, "testenc": path_testenc, "environ": path_environ, "model": path_model, "charset": path_charset, "relay": path_relay}[kind](arg)
 
 
 def run(ctx: Ctx):
@@ -392,6 +462,8 @@ def run(ctx: Ctx):
         jobs += [("sansio", ctx.seed * 1000003 + i), ("testenc", ctx.seed * 1000003 + i), ("environ", ctx.seed * 1000003 + i)]
         if i % 5 == 0:
             jobs.append(("charset", ctx.seed * 1000003 + i))
+        if i % 5 == 1:
+            jobs.append(("relay", ctx.seed * 1000003 + i))
     results = pmap(_dispatch, jobs, workers=ctx.workers, chunksize=32)
     lines, cases = [], {}
     for t, (job, out) in enumerate(zip(jobs, results)):
